@@ -362,6 +362,7 @@ impl GrammarBuilder {
                 }
 
                 if let Some(ConstVal::String(kind)) = new_production.meta.remove("kind") {
+                    self.check_identifier(&kind)?;
                     new_production.kind = Some(kind.into());
                 }
 
